@@ -750,7 +750,7 @@ func (g *gen) control(t typ, d int) (node, bool) {
 		ts := g.paramTypes(g.arity(), 0)
 		args := g.argsT(ts, d)
 		f := g.lambdaT(ts, t, d-1)
-		return node{strings.TrimSpace(lisp("funcall", f.L, joinL(args))), fmt.Sprintf("(EFuncall %s %s)", f.G, listG(args))}, true
+		return node{g.inlineCall(f.L, joinL(args)), fmt.Sprintf("(EFuncall %s %s)", f.G, listG(args))}, true
 	}
 	return node{}, false
 }
@@ -1207,6 +1207,9 @@ func (g *gen) typed(t typ, d int) node {
 				}
 			}
 			g.h("funcall")
+			if strings.HasPrefix(f.L, "(lambda ") {
+				return node{g.inlineCall(f.L, joinL(as)), fmt.Sprintf("(EFuncall %s %s)", f.G, listG(as))}
+			}
 			return node{strings.TrimSpace(lisp("funcall", f.L, joinL(as))), fmt.Sprintf("(EFuncall %s %s)", f.G, listG(as))}
 		case x < 85:
 			if n, ok := g.call(d); ok {
@@ -1437,7 +1440,7 @@ func (g *gen) emptyScopes(n node) node {
 		case 2:
 			n = node{lisp("progn", n.L), "(EProgn [" + n.G + "])"}
 		default:
-			n = node{lisp("funcall", lisp("lambda", "()", n.L)), "(EFuncall (ELambda [] [" + n.G + "]) [])"}
+			n = node{g.inlineCall(lisp("lambda", "()", n.L), ""), "(EFuncall (ELambda [] [" + n.G + "]) [])"}
 		}
 	}
 	return n
@@ -1514,7 +1517,7 @@ func (g *gen) shadowCall(t typ, d int) (node, bool) {
 	case 1:
 		shadow = node{lisp("let*", "("+lisp(v, e2.L)+")", joinL(inner)), fmt.Sprintf("(ELetStar [(%s, %s)] %s)", q(v), e2.G, listG(inner))}
 	case 2:
-		shadow = node{lisp("funcall", lisp("lambda", "("+v+")", joinL(inner)), e2.L),
+		shadow = node{g.inlineCall(lisp("lambda", "("+v+")", joinL(inner)), e2.L),
 			fmt.Sprintf("(EFuncall (ELambda [%s] %s) [%s])", q(v), listG(inner), e2.G)}
 	default:
 		shadow = node{lisp("dolist", lisp(v, lisp("list", e2.L)), joinL(inner)),
@@ -1604,14 +1607,14 @@ func (g *gen) creationContext(lam node, p string) node {
 		case 2:
 			return node{lisp("progn", n.L), "(EProgn [" + n.G + "])"}
 		case 3:
-			return node{lisp("funcall", lisp("lambda", "()", n.L)), "(EFuncall (ELambda [] [" + n.G + "]) [])"}
+			return node{g.inlineCall(lisp("lambda", "()", n.L), ""), "(EFuncall (ELambda [] [" + n.G + "]) [])"}
 		case 4:
 			return node{lisp("let", "("+lisp(p, "5")+")", n.L), fmt.Sprintf("(ELet [(%s, %s)] [%s])", q(p), gInt(5), n.G)}
 		case 5:
-			return node{lisp("funcall", lisp("lambda", "("+p+" "+p+"2)", n.L), "1", "2"),
+			return node{g.inlineCall(lisp("lambda", "("+p+" "+p+"2)", n.L), "1 2"),
 				fmt.Sprintf("(EFuncall (ELambda [%s; %s] [%s]) [%s; %s])", q(p), q(p+"2"), n.G, gInt(1), gInt(2))}
 		case 6:
-			return node{lisp("funcall", lisp("funcall", lisp("lambda", "()", lisp("lambda", "()", n.L)))),
+			return node{lisp("funcall", g.inlineCall(lisp("lambda", "()", lisp("lambda", "()", n.L)), "")),
 				"(EFuncall (EFuncall (ELambda [] [ELambda [] [" + n.G + "]]) []) [])"}
 		case 7:
 			return node{lisp("dotimes", lisp(p, "1", n.L)), fmt.Sprintf("(EDotimes %s %s (Some %s) [])", q(p), gInt(1), n.G)}
